@@ -19,7 +19,7 @@ RULE_TEXT = (
     "duplicates and reordered copies. non-trivial = at least one message had a predecessor on its key; distinct = interleaving signature; "
     "distinct_model_states counts distinct (previous symbol, symbol, outcome) transitions observed"
 )
-PROBES = ["detections", "non_detections_with_history", "foreign_datagrams", "undecodable_sd", "coalesced", "wrap_set_to_clear"]
+PROBES = ["unicast_flag_clear_messages", "detections", "non_detections_with_history", "foreign_datagrams", "undecodable_sd", "coalesced", "wrap_set_to_clear"]
 
 SIDS = [1, 2, 3, 0x7FFF, 0xFFFE, 0xFFFF]
 SYMS = [(f, s) for f in (0, 1) for s in SIDS]
@@ -90,6 +90,8 @@ def random_plan(seed, idx):
                 sid = r.randint(1, 0xFFFF)
             sym = (r.random() < 0.6, sid)
             o = msg(t, p, ch, sym, FIND if r.random() < 0.8 else [])
+            if r.random() < 0.12:
+                o["uf"] = False  # unicast flag clear: its entries are ignored, it is still a received SD message of that sender
             ops.append(o)
             sent.append((t, p, ch, sym))
         elif u < 0.78 and sent:
@@ -164,6 +166,8 @@ def check(plan, res):
                 if cls != "sd":
                     probes["foreign_datagrams" if cls == "foreign" and not refdec.is_sd_header(m) else "undecodable_sd"] += 1
                     continue
+                if not sdm.unicast:
+                    probes["unicast_flag_clear_messages"] += 1
                 prev = model.last.get((src, ch == "m"))
                 det = model.rx(src, ch == "m", sdm.reboot, m.session)
                 if prev is not None:
